@@ -407,6 +407,76 @@ theorem sample_stable_reachable_partial (fx : Fixes) (env : HEnv K) (arrays : Li
       sample env (run fx env (Heap.init arrays dicts) pre) o xs :=
   sample_stable fx env _ cs o xs ho (live_reachable fx env arrays dicts pre o) hd hh
 
+/-! ### an assignment to one object never changes another -/
+
+/-- the only redshift state / metadata a sample of `d` reads is `d`'s own: a derived object never reads
+the attributes of the operand it was built from (operators copy the operand's `model` — redshift
+included — into a new compound model; the `z` setter builds a *new* `RedshiftScaleFactor` / `Scale`,
+so compound models built earlier keep the old instances) -/
+theorem reads_attrs (h : Heap K) (d o : Nat) :
+    (Loc.objZ o ∈ reads h d → o = d) ∧ Loc.objMeta o ∉ reads h d := by
+  unfold reads
+  cases h.objs[d]? with
+  | none => simp
+  | some ob =>
+    constructor
+    · intro hm
+      simp only [List.mem_append, List.mem_cons, List.mem_flatMap] at hm
+      rcases hm with (hm | hm | hm) | ⟨m, _, hm⟩
+      · cases hm
+      · cases hm; rfl
+      · simp at hm
+      · rcases hm with hm | hm
+        · cases hm
+        · split at hm <;> simp at hm
+    · intro hm
+      simp only [List.mem_append, List.mem_cons, List.mem_flatMap] at hm
+      rcases hm with (hm | hm | hm) | ⟨m, _, hm⟩
+      · cases hm
+      · cases hm
+      · simp at hm
+      · rcases hm with hm | hm
+        · cases hm
+        · split at hm <;> simp at hm
+
+/-- **assigning `z`, `z_type`, warnings or metadata on one object leaves the samples of every other
+live object bit-identical** — in particular of everything derived from it earlier (`sp * k`,
+`sp * bp`, `sp + other`, `Observation(sp, bp)`, normalised / tapered copies): a derived object is
+never in the write-set of an assignment to its operand.  Any code version. -/
+theorem assign_keeps_others (fx : Fixes) (env : HEnv K) (h : Heap K) (o d : Nat) (xs : List K)
+    (hne : d ≠ o) (hd : (h.objs[d]?).isSome) (hlive : ∀ l ∈ reads h d, (h.get l).isSome) :
+    (∀ z, sample env (step fx env h (.setZ o z)).1 d xs = sample env h d xs) ∧
+    (∀ t, sample env (step fx env h (.setZType o t)).1 d xs = sample env h d xs) ∧
+    (∀ w, sample env (step fx env h (.setWarnings o w)).1 d xs = sample env h d xs) ∧
+    (∀ k v, sample env (step fx env h (.setMeta o k v)).1 d xs = sample env h d xs) := by
+  have key : ∀ c : Call K, (documented h c = [.objZ o] ∨ documented h c = [.objMeta o]) →
+      HeapModel.hidden fx h c = [] → sample env (step fx env h c).1 d xs = sample env h d xs := by
+    intro c hdoc hhid
+    have := sample_stable fx env h [c] d xs hd hlive
+      (fun l hl hm => by
+        simp only [documentedAlong, List.append_nil] at hm
+        rcases hdoc with e | e <;> rw [e] at hm <;> simp only [List.mem_singleton] at hm <;> subst hm
+        · exact hne ((reads_attrs h d o).1 hl).symm
+        · exact (reads_attrs h d o).2 hl)
+      (fun l hl hm => by
+        simp only [hiddenAlong, List.append_nil] at hm
+        rw [hhid] at hm; simp at hm)
+    simpa [run] using this
+  exact ⟨fun z => key _ (Or.inl rfl) rfl, fun t => key _ (Or.inl rfl) rfl,
+         fun w => key _ (Or.inr rfl) rfl, fun k v => key _ (Or.inr rfl) rfl⟩
+
+/-- the same for every store a history builds from the caller's pool (liveness is then automatic):
+build `sp`, derive anything from it, assign `sp.z` — the derived objects sample as before -/
+theorem assign_keeps_derived (fx : Fixes) (env : HEnv K) (arrays : List (ArrCell K)) (dicts : List Dict)
+    (pre : List (Call K)) (o d : Nat) (xs : List K) (hne : d ≠ o)
+    (hd : ((run fx env (Heap.init arrays dicts) pre).objs[d]?).isSome) (z : K) (t : ZType) :
+    sample env (step fx env (run fx env (Heap.init arrays dicts) pre) (.setZ o z)).1 d xs =
+      sample env (run fx env (Heap.init arrays dicts) pre) d xs ∧
+    sample env (step fx env (run fx env (Heap.init arrays dicts) pre) (.setZType o t)).1 d xs =
+      sample env (run fx env (Heap.init arrays dicts) pre) d xs := by
+  have A := assign_keeps_others fx env _ o d xs hne hd (live_reachable fx env arrays dicts pre d)
+  exact ⟨A.1 z, A.2.1 t⟩
+
 /-! ### evaluating twice -/
 
 theorem applyAll_evalEffects (fx : Fixes) (h : Heap K) (t : HTree K) :
@@ -645,7 +715,7 @@ def w1 : Heap K := Heap.init [⟨[1, 2], .ndarray, true⟩, ⟨[1, -1], .ndarray
 anything, yet the code as found **zeroes the negative entry in the caller's `y`**: the full frame
 property fails at `.arr 1`.  The repaired code leaves `y` alone. -/
 theorem clip_writes_caller_array (env : HEnv K) :
-    let c : Call K := .newEmpirical .source 0 1 [] [] false none false
+    let c : Call K := .newEmpirical .source 0 1 [] [] false none false none
     documented (w1 : Heap K) c = [] ∧
     ((step Fixes.asFound env w1 c).1.arrays[1]?).map (fun a : ArrCell K => a.data) = some ([1, 0] : List K) ∧
     ((step Fixes.repaired env w1 c).1.arrays[1]?).map (fun a : ArrCell K => a.data) = some ([1, -1] : List K) ∧
@@ -669,7 +739,7 @@ theorem frame_fails_asFound (env : HEnv K) :
     intro e
     have : (-1 : K) = 0 := by simp at e
     norm_num at this
-  have F := hf w1 [.newEmpirical .source 0 1 [] [] false none false] (.arr 1)
+  have F := hf w1 [.newEmpirical .source 0 1 [] [] false none false none] (.arr 1)
     (.arr ⟨[1, -1], .ndarray, true⟩) (by simp [documentedAlong, documented]) (by simp [Heap.get, w1, Heap.init])
   have W := (clip_writes_caller_array (K := K) env).2.1
   simp only [run] at F
